@@ -616,3 +616,96 @@ fn verif_reset_statics() {
     }
     clock::set(0, 0, 0);
 }
+
+// =========================================================================== C14: trippy-core's conversions
+
+/// Leaf conversion: a label-stack member is copied field by field (independent RFC 4950 decode).
+#[kani::proof]
+#[kani::unwind(6)]
+fn c14_core_mpls_member_from() {
+    use crate::probe::MplsLabelStackMember;
+    use trippy_packet::icmp_extension::mpls_label_stack_member::MplsLabelStackMemberPacket;
+    let b: [u8; 4] = kani::any();
+    let m = MplsLabelStackMember::from(MplsLabelStackMemberPacket::new_view(&b).unwrap());
+    assert!(m.label == (u32::from(b[0]) << 12) | (u32::from(b[1]) << 4) | (u32::from(b[2]) >> 4));
+    assert!(m.exp == (b[2] >> 1) & 7 && m.bos == b[2] & 1 && m.ttl == b[3]);
+}
+
+/// Leaf conversion: an object of an unknown class keeps its class, sub-type and exactly its payload bytes.
+#[kani::proof]
+#[kani::unwind(10)]
+fn c14_core_unknown_extension_from() {
+    use crate::probe::UnknownExtension;
+    use trippy_packet::icmp_extension::extension_object::ExtensionObjectPacket;
+    let b: [u8; 8] = kani::any();
+    let l = usize::from(be16(&b, 0));
+    kani::assume(l >= 4 && l <= 8);
+    let u = UnknownExtension::from(ExtensionObjectPacket::new_view(&b).unwrap());
+    assert!(u.class_num == b[2] && u.class_subtype == b[3]);
+    assert!(u.bytes.len() == l - 4);
+    let mut i = 0;
+    while i < 4 {
+        if i < l - 4 {
+            assert!(u.bytes[i] == b[4 + i]);
+        }
+        i += 1;
+    }
+    kani::cover!(l == 8, "full payload");
+    kani::cover!(l == 4, "empty payload");
+    std::mem::forget(u);
+}
+
+/// The whole conversion `Extensions::try_from` on a well-formed structure of fixed shape (header
+/// version 2, one MPLS object holding two label-stack members, one opaque object with two payload
+/// bytes), every field value symbolic: exactly those objects, labels and EXP/S/TTL values, in order.
+/// (For arbitrary byte strings the conversion is outside reach, DESIGN C14.)
+#[kani::proof]
+#[kani::unwind(10)]
+fn c14_core_extensions_try_from_wellformed() {
+    use crate::probe::{Extension, Extensions};
+    let mut b = [0u8; 4 + 12 + 6];
+    b[0] = 0x20; // version 2
+    b[2] = kani::any();
+    b[3] = kani::any(); // checksum: not verified by the parser
+    // object 1: MPLS label stack, length 12, class 1, subtype 1, two members
+    b[4] = 0;
+    b[5] = 12;
+    b[6] = 1;
+    b[7] = 1;
+    let m: [u8; 8] = kani::any();
+    kani::assume(m[2] & 1 == 0 && m[6] & 1 == 1); // bottom-of-stack on the last member only
+    let mut i = 0;
+    while i < 8 {
+        b[8 + i] = m[i];
+        i += 1;
+    }
+    // object 2: unknown class, length 6
+    let class: u8 = kani::any();
+    kani::assume(class != 1);
+    b[16] = 0;
+    b[17] = 6;
+    b[18] = class;
+    b[19] = kani::any();
+    b[20] = kani::any();
+    b[21] = kani::any();
+    let e = Extensions::try_from(&b[..]).unwrap();
+    assert!(e.extensions.len() == 2, "exactly the objects that were encoded");
+    match &e.extensions[0] {
+        Extension::Mpls(s) => {
+            assert!(s.members.len() == 2);
+            assert!(s.members[0].label == (u32::from(m[0]) << 12) | (u32::from(m[1]) << 4) | (u32::from(m[2]) >> 4));
+            assert!(s.members[0].exp == (m[2] >> 1) & 7 && s.members[0].bos == 0 && s.members[0].ttl == m[3]);
+            assert!(s.members[1].label == (u32::from(m[4]) << 12) | (u32::from(m[5]) << 4) | (u32::from(m[6]) >> 4));
+            assert!(s.members[1].exp == (m[6] >> 1) & 7 && s.members[1].bos == 1 && s.members[1].ttl == m[7]);
+        }
+        Extension::Unknown(_) => assert!(false, "first object is the MPLS stack"),
+    }
+    match &e.extensions[1] {
+        Extension::Unknown(u) => {
+            assert!(u.class_num == class && u.class_subtype == b[19]);
+            assert!(u.bytes.len() == 2 && u.bytes[0] == b[20] && u.bytes[1] == b[21]);
+        }
+        Extension::Mpls(_) => assert!(false, "second object is opaque"),
+    }
+    std::mem::forget(e);
+}
